@@ -129,7 +129,9 @@ typedef struct {
   long n_read, n_seek, n_tell, n_close, n_calls; int64_t bytes_served;
   long budget;              /* 0 = none; callback invocations allowed for the current API call */
   long budget_used; sigjmp_buf *jb; int overrun;
+  int errno_dirty;          /* a source that retried an interrupted read: successful reads return with errno == EINTR (legal: errno is only meaningful after a failure) */
 } memsrc_t;
+extern int memsrc_errno_dirty_default;   /* copied into errno_dirty by memsrc_init */
 void memsrc_init(memsrc_t *m, const unsigned char *d, size_t n, int seekmode);
 void memsrc_schedule(memsrc_t *m, int rs, int cap, uint64_t seed);
 void memsrc_fault(memsrc_t *m, int kind, long at, int persist);
